@@ -13,7 +13,8 @@ use wasm_encoder::{BlockType, HeapType, Instruction as I, MemArg, ValType as VT}
 pub struct GenParams {
     pub seed: u64,
     pub n_funcs: u32,
-    /// 0: tiny bodies, 1: equal medium bodies, 2: unequal (a few large, many small)
+    /// 0: tiny bodies, 1: equal medium bodies, 2: unequal (a few large, many small), 3: unequal with ONE huge
+    /// body (several thousand statements: anything keyed on "big functions" must see one now and then)
     pub size_mode: u8,
     pub multi_memory: bool,
     pub memory64: bool,
@@ -58,7 +59,7 @@ impl GenParams {
         GenParams {
             seed: rng.u64(),
             n_funcs: if zero_ok { 0 } else { n_funcs.max(1) },
-            size_mode: rng.below(3) as u8,
+            size_mode: if rng.chance(1, 25) { 3 } else { rng.below(3) as u8 },
             multi_memory: rng.chance(1, 4),
             memory64: rng.chance(1, 5),
             threads: rng.chance(1, 5),
@@ -1611,7 +1612,7 @@ pub fn generate(p: &GenParams) -> Generated {
         2 => 0,
         _ => rng.fork("lone").below(p.n_funcs.max(1) as u64) as u32,
     };
-    let big_ones: Vec<u32> = if p.size_mode == 2 { (0..3).map(|_| rng.below(p.n_funcs as u64) as u32).collect() } else { vec![] };
+    let big_ones: Vec<u32> = if p.size_mode >= 2 { (0..3).map(|_| rng.below(p.n_funcs as u64) as u32).collect() } else { vec![] };
     for k in 0..p.n_funcs {
         let sig = &sigs[funcs[(n_imp_funcs + k) as usize] as usize];
         let mut brng = rng.fork(&format!("body{}", k));
@@ -1627,7 +1628,9 @@ pub fn generate(p: &GenParams) -> Generated {
             0 => brng.range(0, 6) as i64,
             1 => 40,
             _ => {
-                if big_ones.contains(&k) {
+                if p.size_mode == 3 && big_ones.first() == Some(&k) {
+                    brng.range(4000, 9000) as i64
+                } else if big_ones.contains(&k) {
                     brng.range(300, 1500) as i64
                 } else {
                     brng.range(0, 20) as i64
@@ -1647,7 +1650,7 @@ pub fn generate(p: &GenParams) -> Generated {
         };
         let mut guard = 0;
         let mut boundaries = vec![0usize];
-        while b.budget > 0 && guard < 400 {
+        while b.budget > 0 && guard < if p.size_mode == 3 { 6000 } else { 400 } {
             b.stmt(1);
             boundaries.push(b.out.len());
             guard += 1;
